@@ -62,6 +62,7 @@ type genesis struct {
 	logger     *log.Logger
 	refDB      ethstate.Database
 	refRoot    ethcmn.Hash
+	privates   int
 }
 
 func oltCurrency() balance.Currency {
@@ -76,44 +77,12 @@ func oltCurrency() balance.Currency {
 // back-ends report the same starting accounts.
 func newGenesis(seeds []seedAccount) (*genesis, error) {
 	g := &genesis{seeds: seeds}
-	g.currencies = balance.NewCurrencySet()
-	if err := g.currencies.Register(oltCurrency()); err != nil {
+	if err := g.seedAdapter(); err != nil {
 		return nil, err
 	}
-	g.logger = log.NewLoggerWithPrefix(io.Discard, "stateDB").WithLevel(log.Fatal)
-	g.cs = storage.NewChainState("chainstate", tmdb.NewDB("c16", tmdb.MemDBBackend, ""))
-
-	a := newAdapter(g)
-	for _, s := range seeds {
-		if s.Legacy {
-			if s.Nonce != 0 || len(s.Code) != 0 || len(s.Storage) != 0 {
-				return nil, fmt.Errorf("legacy seed %s with nonce/code/storage", s.Addr.Hex())
-			}
-			coin := balance.Coin{Currency: oltCurrency(), Amount: balance.NewAmountFromBigInt(big.NewInt(s.Balance))}
-			if err := a.balances.SetBalance(s.Addr.Bytes(), coin); err != nil {
-				return nil, err
-			}
-			continue
-		}
-		a.sdb.CreateAccount(s.Addr)
-		if s.Balance != 0 {
-			a.sdb.AddBalance(s.Addr, big.NewInt(s.Balance))
-		}
-		a.sdb.SetNonce(s.Addr, s.Nonce)
-		if len(s.Code) > 0 {
-			a.sdb.SetCode(s.Addr, s.Code)
-		}
-		for k, v := range s.Storage {
-			a.sdb.SetState(s.Addr, k, v)
-		}
-	}
-	if err := a.sdb.Finalise(true); err != nil {
-		return nil, fmt.Errorf("seeding the adapter: %v", err)
-	}
-	a.st.CommitTxSession()
-	a.sdb.Reset()
-	a.st.Commit()
-
+	// go-ethereum's state.NewDatabase maps a 64 MiB off-heap code cache on first use, so the reference database
+	// is created once per genesis and shared by its private copies (see private()): trie nodes and code are
+	// content-addressed, so block commits of different executions cannot interfere.
 	g.refDB = ethstate.NewDatabase(rawdb.NewMemoryDatabase())
 	ref, err := ethstate.New(ethcmn.Hash{}, g.refDB, nil)
 	if err != nil {
@@ -136,6 +105,59 @@ func newGenesis(seeds []seedAccount) (*genesis, error) {
 	}
 	g.refRoot = root
 	return g, nil
+}
+
+// private returns a genesis with its own chain state (so that the execution may commit blocks) that shares
+// the reference database of g.
+func (g *genesis) private() *genesis {
+	p := &genesis{seeds: g.seeds, refDB: g.refDB, refRoot: g.refRoot}
+	if err := p.seedAdapter(); err != nil {
+		panic(err)
+	}
+	g.privates++
+	return p
+}
+
+func (g *genesis) seedAdapter() error {
+	seeds := g.seeds
+	g.currencies = balance.NewCurrencySet()
+	if err := g.currencies.Register(oltCurrency()); err != nil {
+		return err
+	}
+	g.logger = log.NewLoggerWithPrefix(io.Discard, "stateDB").WithLevel(log.Fatal)
+	g.cs = storage.NewChainState("chainstate", tmdb.NewDB("c16", tmdb.MemDBBackend, ""))
+
+	a := newAdapter(g)
+	for _, s := range seeds {
+		if s.Legacy {
+			if s.Nonce != 0 || len(s.Code) != 0 || len(s.Storage) != 0 {
+				return fmt.Errorf("legacy seed %s with nonce/code/storage", s.Addr.Hex())
+			}
+			coin := balance.Coin{Currency: oltCurrency(), Amount: balance.NewAmountFromBigInt(big.NewInt(s.Balance))}
+			if err := a.balances.SetBalance(s.Addr.Bytes(), coin); err != nil {
+				return err
+			}
+			continue
+		}
+		a.sdb.CreateAccount(s.Addr)
+		if s.Balance != 0 {
+			a.sdb.AddBalance(s.Addr, big.NewInt(s.Balance))
+		}
+		a.sdb.SetNonce(s.Addr, s.Nonce)
+		if len(s.Code) > 0 {
+			a.sdb.SetCode(s.Addr, s.Code)
+		}
+		for k, v := range s.Storage {
+			a.sdb.SetState(s.Addr, k, v)
+		}
+	}
+	if err := a.sdb.Finalise(true); err != nil {
+		return fmt.Errorf("seeding the adapter: %v", err)
+	}
+	a.st.CommitTxSession()
+	a.sdb.Reset()
+	a.st.Commit()
+	return nil
 }
 
 // adapter is one instance of the system under test, wired as in app/context.go and driven as in
